@@ -11,7 +11,7 @@ from ..util import callee, decl, norm_fn
 
 EXID_TO_OPID = "automerge::automerge::Automerge::exid_to_opid"
 CURSOR_TO_OPID = "automerge::automerge::Automerge::op_cursor_to_opid"
-OPID_NEW = "automerge::types::OpId::new"
+OPID_NEW = ("automerge::types::OpId::new", "automerge::types::OpId::try_new")
 LOOKUP = "automerge::op_set2::op_set::OpSet::lookup_actor"
 SAFE = "automerge::op_set2::op_set::OpSet::get_actor_safe"
 
@@ -48,7 +48,7 @@ def hint_guard_edges(b):
 
 def check_fn(ctx, path, id_param_ty, floor):
     b = ctx.body(path)
-    sites = [(bi, t) for bi, t in b.calls() if callee(t) == OPID_NEW]
+    sites = [(bi, t) for bi, t in b.calls() if callee(t) in OPID_NEW]
     ctx.floor("OpId::new call sites in %s" % path.split("::")[-1], len(sites), floor)
     edges = hint_guard_edges(b)
     for k, (bi, t) in util.ordinal_keys(sites, lambda it: "%s|OpId::new" % norm_fn(path)):
@@ -118,7 +118,7 @@ def run(ctx):
             continue
         n_readers += 1
         rb = cfg.body(r)
-        sites = [(bi, t) for bi, t in rb.calls() if callee(t) == OPID_NEW]
+        sites = [(bi, t) for bi, t in rb.calls() if callee(t) in OPID_NEW]
         if not sites:
             continue
         ctx.analysed_fns.add(p)
